@@ -168,6 +168,9 @@ func (k *KittyImage) Resize(w int, h int) {
 			}
 			fmt.Fprintf(k.buf, "\x1B_Gf=100,i=%d,m=%d;%s\x1B\\", k.id, m, string(b[:n]))
 		}
+		// The image must be drawable by the time the application sees
+		// the Redraw
+		atomicStore(&k.encoding, false)
 		k.vx.PostEventBlocking(Redraw{})
 	}()
 }
@@ -270,6 +273,9 @@ func (s *Sixel) Resize(w int, h int) {
 			log.Error("couldn't encode sixel: %v", err)
 			return
 		}
+		// The image must be drawable by the time the application sees
+		// the Redraw
+		atomicStore(&s.encoding, false)
 		s.vx.PostEventBlocking(Redraw{})
 	}()
 }
